@@ -48,7 +48,38 @@ def kind_name(dim):
     return dim.get("subtype") or dim["kind"]
 
 
+PW_METHODS = {"pairwise_t_stats": "pairwise_significance_t_stats",
+              "pairwise_p_vals": "pairwise_significance_p_vals",
+              "pairwise_means_t_stats": "pairwise_significance_means_t_stats",
+              "pairwise_means_p_vals": "pairwise_significance_means_p_vals"}
+
+
+def expand_expectations(exp, cfg):
+    """flatten per-selected-column lists into single expectations keyed 'name@i' and attach
+    the thresholds the index sets are judged with"""
+    out = {}
+    pw = cfg.get("pairwise") or {}
+    alphas = sorted(pw.get("alpha") or [0.05])
+    for prop, e in exp.items():
+        if isinstance(e, list):
+            for i, ei in enumerate(e):
+                out["%s@%d" % (prop, i)] = ei
+        elif isinstance(e, dict) and e.get("k") == "pwidx":
+            out[prop] = dict(e, alpha=alphas[0], only_larger=pw.get("only_larger", True))
+            if len(alphas) > 1:
+                out[prop + "_alt"] = dict(e, alpha=alphas[1],
+                                          only_larger=pw.get("only_larger", True))
+        else:
+            out[prop] = e
+    return out
+
+
 def observe(part, prop, scn, cfg, aux):
+    if "@" in prop:
+        name, i = prop.split("@")
+        if name == "legacy_pairwise_t_stats":
+            return part.pairwise_significance_tests[int(i)].t_stats
+        return getattr(part, PW_METHODS[name])(int(i))
     if prop == "row_pos":
         rd, _ = slice_dims(scn)
         return _labels_to_pos(rd, list(part.row_labels), cfg["rows"], aux.get("rsubs"))
@@ -176,6 +207,7 @@ def replay(job, rec):
                                      tags=dict(base_tags, prop="Cube." + prop)))
         for k, (part, exp) in enumerate(zip(parts, rec["parts"])):
             aux = auxs[k] if k < len(auxs) else {}
+            exp = expand_expectations(exp, cfg)
             for prop, e in exp.items():
                 if prop in skip or (only and prop not in only):
                     continue
@@ -214,6 +246,7 @@ def replay(job, rec):
         if not mism and not job.get("single_pass"):
             for k, (part, exp) in enumerate(zip(parts, rec["parts"])):
                 aux = auxs[k] if k < len(auxs) else {}
+                exp = expand_expectations(exp, cfg)
                 for prop in reversed(list(exp)):
                     e = exp[prop]
                     if prop in skip or (only and prop not in only):
@@ -247,6 +280,7 @@ def replay(job, rec):
                 parts2 = ()
             for k, (part, exp) in reversed(list(enumerate(zip(parts2, rec["parts"])))):
                 aux = auxs[k] if k < len(auxs) else {}
+                exp = expand_expectations(exp, cfg)
                 for prop in reversed(list(exp)):
                     e = exp[prop]
                     if prop in skip or (only and prop not in only):
